@@ -13,13 +13,13 @@ from mc.common import HarnessError, Stats, pmap, safe, shards
 PROPERTY = 'C11'
 LEVEL = 'exploration'
 RULE = ('(A) each constructor alone (multi-value expansion of x / x;y, sub-features x->y, y->x, x<->y, x->y;y<->x, interactions, noise controls) on every 2-column frame with '
-        '2 rows (quick) / 3 rows (thorough) over {"", a, b, "a,b", "b-a", "{}", ab, "a "}; transformations on numeric columns over {"", 1, 2, -1}; '
+        '2 rows (quick) / 3 rows (thorough) over {"", a, b, "a,b-c", "b-a", "{}", ab, "a "}; transformations on numeric columns over {"", 1, 2, -1}; '
         '(B) all 2^5 subsets of the construction flags (+ 3MR heuristic) through compute_batch_ranking on frames (x multi-valued, y selector, n numeric, label) with the frame recorded '
         'after every step. Oracle: previous frame is an exact prefix (columns, values, row order), new columns have one non-missing value per row, MULTIEX / SUBFEATURE / CONTROL-target '
         'rules recomputed, triplet names = columns of the final frame; sequence differential over <= 3 successive batches per flag (final frame + triplets vs a pristine process state). distinct_nontrivial = (frame, constructor/flag-set) cases that append at least one column')
 ASSUMPTIONS = ['seed lists whose one-sided entries share the source feature but differ in the selector are outside the alphabet (their column names coincide by construction of the naming scheme)']
 
-CELLS = ['', 'a', 'b', 'a,b', 'b-a', '{}', 'ab', 'a ']   # token 'ab' contains the tokens 'a' and 'b' (membership must be by token, not by substring); 'a ' differs from 'a' only by trailing whitespace
+CELLS = ['', 'a', 'b', 'a,b-c', 'b-a', '{}', 'ab', 'a ']   # token 'ab' contains the tokens 'a' and 'b' (membership must be by token, not by substring); 'a ' differs from 'a' only by trailing whitespace
 MISSING = {'', '{}'}
 
 
